@@ -15,7 +15,9 @@ ID = 'C08'
 LEVEL = 'exploration'
 RULE = ('Hypothesis expression trees (depth <= 5) over + - * /, unary minus, the six comparisons, round(x), round(x, n), '
         'floor, ceil, abs, int, sum, min, max on literals with 1-40 integer and 0-40 fraction digits (leading/trailing '
-        'zeros, values straddling the 28th digit, half-even ties), magnitudes within 10^+-200. Oracle: exact rational '
+        'zeros, values straddling the 28th digit, half-even ties), magnitudes within 10^+-200; unary builtins also as '
+        'x.f() / x | f with a bare leading minus (-2.5.floor() is floor(-2.5)); parsers built or previously used under '
+        'another decimal context (prec 6 ROUND_DOWN, prec 60 ROUND_UP) or with a parse cache, evaluated under the default context. Oracle: exact rational '
         'arithmetic with own half-even rounding to 28 significant digits after every operation; a literal alone must equal '
         'Fraction(text); comparisons follow rational order; division by zero must raise. Non-trivial: some operation needed '
         'rounding at the 28th digit, a literal has > 28 significant digits, or operand exponents differ by > 10; distinct '
@@ -32,6 +34,44 @@ def parser():
         from smartquery import SqParser
         _parser = SqParser()
     return _parser
+
+
+_variants = {}
+
+
+def variant_parser(kind):
+    """parsers whose construction or earlier use happened under another decimal context than the evaluation judged here"""
+    if kind in (None, 'plain'):
+        return parser()
+    p = _variants.get(kind)
+    from smartquery import SqParser
+    if p is None:
+        if kind == 'built-under-prec6-down':
+            with decimal.localcontext() as c:
+                c.prec, c.rounding = 6, decimal.ROUND_DOWN
+                p = SqParser()
+        elif kind == 'built-under-prec60-up':
+            with decimal.localcontext() as c:
+                c.prec, c.rounding = 60, decimal.ROUND_UP
+                p = SqParser()
+        elif kind == 'cached':
+            p = SqParser(parse_cache={})
+        else:
+            p = SqParser()
+        _variants[kind] = p
+    if kind == 'used-under-prec6-before':
+        with decimal.localcontext() as c:
+            c.prec, c.rounding = 6, decimal.ROUND_DOWN
+            try:
+                p.eval('x = 1 / 3\nx * 3 + 0.1234567', {}, max_ops_evaluated=100)
+            except Exception:  # noqa
+                pass
+    if kind == 'cached' and len(p.parse_cache) > 3000:
+        p.parse_cache.clear()
+    return p
+
+
+HOSTS = ['plain', 'plain', 'plain', 'built-under-prec6-down', 'built-under-prec60-up', 'used-under-prec6-before', 'cached']
 
 
 def reset_context():
@@ -104,7 +144,7 @@ class Ref:
         if k == 'cmp':
             a, b = self.ev(t[2]), self.ev(t[3])
             return {'<': a < b, '<=': a <= b, '==': a == b, '!=': a != b, '>': a > b, '>=': a >= b}[t[1]]
-        if k == 'fn':
+        if k in ('fn', 'fnm'):
             name = t[1]
             if name in ('sum', 'min', 'max'):
                 vals = [self.ev(x) for x in t[2]]
@@ -148,6 +188,11 @@ def render(t):
         return f'({render(t[2])} {t[1]} {render(t[3])})'
     if k == 'neg':
         return f'(-{render(t[1])})'
+    if k == 'fnm':
+        # method / pipe call forms; a bare leading minus belongs to the receiver: -2.5.floor() is floor(-2.5)
+        a = t[2]
+        recv = f'-{a[1][1]}' if a[0] == 'neg' and a[1][0] == 'lit' and t[3].endswith('bare') else (a[1] if a[0] == 'lit' else f'({render(a)})')
+        return f'({recv}.{t[1]}())' if t[3].startswith('dot') else f'({recv} | {t[1]})'
     if k == 'fn':
         if t[1] in ('sum', 'min', 'max'):
             return f'{t[1]}([' + ', '.join(render(x) for x in t[2]) + '])'
@@ -158,11 +203,11 @@ def render(t):
 
 
 def root_label(t):
-    return {'lit': 'literal', 'aug': 'op:' + str(t[1]) + '=', 'augidx': 'op:[k]' + str(t[1]) + '=', 'bin': 'op:' + str(t[1]), 'cmp': 'cmp', 'neg': 'op:neg', 'fn': 'fn:' + str(t[1])}[t[0]]
+    return {'lit': 'literal', 'aug': 'op:' + str(t[1]) + '=', 'augidx': 'op:[k]' + str(t[1]) + '=', 'bin': 'op:' + str(t[1]), 'cmp': 'cmp', 'neg': 'op:neg', 'fn': 'fn:' + str(t[1]), 'fnm': 'fn:' + str(t[1])}[t[0]]
 
 
 def from_json(t):
-    return tuple(from_json(x) if isinstance(x, list) and x and isinstance(x[0], str) and x[0] in ('lit', 'bin', 'cmp', 'neg', 'fn', 'aug', 'augidx')
+    return tuple(from_json(x) if isinstance(x, list) and x and isinstance(x[0], str) and x[0] in ('lit', 'bin', 'cmp', 'neg', 'fn', 'fnm', 'aug', 'augidx')
                  else ([from_json(y) for y in x] if isinstance(x, list) else x) for x in t)
 
 
@@ -181,7 +226,7 @@ def check_tree(tree, case):
     info = {'inexact': ref.inexact, 'wide': ref.wide_literal, 'outcome': 'value' if exp_exc is None else 'div0'}
     fails = []
     try:
-        got = parser().eval(src, {}, max_ops_evaluated=10 ** 6)
+        got = variant_parser(case.get('host')).eval(src, {}, max_ops_evaluated=10 ** 6)
         got_exc = None
     except Exception as e:  # noqa
         got, got_exc = None, e
@@ -223,6 +268,7 @@ SEEDS = [
     ('bin', '+', ('fn', 'ceil', ('lit', '1.5')), ('bin', '/', ('neg', ('lit', '2')), ('lit', '3'))),
     ('aug', '/', ('lit', '2'), ('lit', '3')), ('aug', '/', ('lit', '5'), ('lit', '6')), ('augidx', '/', ('lit', '2'), ('lit', '3')),
     ('aug', '*', ('lit', '1.1'), ('lit', '3')), ('fn', 'max', [('bin', '+', ('lit', '0.1'), ('lit', '0.2')), ('lit', '0.30000000000000000001')]),
+    ('fnm', 'floor', ('neg', ('lit', '2.5')), 'dot-bare'), ('fnm', 'ceil', ('neg', ('lit', '2.5')), 'pipe-bare'), ('fnm', 'abs', ('neg', ('lit', '7')), 'dot-bare'),
     ('fn', 'max', [('lit', '9007199254740992'), ('lit', '9007199254740993')]), ('fn', 'min', [('lit', '9007199254740993'), ('lit', '9007199254740992')]),
 ]
 
@@ -265,6 +311,9 @@ def trees(draw):
         if c == 8:
             return ('neg', g(d - 1))
         if c == 9:
+            if n(3) == 0:
+                arg = ('neg', lit() if n(2) else small_lit()) if n(2) else g(d - 1)
+                return ('fnm', pick(['abs', 'floor', 'ceil', 'int', 'round']), arg, pick(['dot-bare', 'pipe-bare', 'dot', 'pipe']))
             return ('fn', pick(['abs', 'floor', 'ceil', 'int', 'round']), g(d - 1))
         if c == 10:
             inner = small_lit() if n(2) else ('bin', pick('+-*/'), small_lit(), small_lit())
@@ -312,8 +361,9 @@ def run_job(job):
         return st
     _, seed, n = job
 
-    def check(t):
-        case = {'tree': t}
+    def check(th):
+        t, host = th
+        case = {'tree': t, 'host': host}
         fails, info = check_tree(t, case)
         if info.get('discard'):
             return hyp.Result(discard=True)
@@ -324,7 +374,9 @@ def run_job(job):
             cls.append('needed-rounding')
         if info['wide']:
             cls.append('literal>28-digits')
-        return hyp.Result(fails, nt, cls, key=src, sample={'src': src[:300]})
+        if host != 'plain':
+            cls.append('host:' + host)
+        return hyp.Result(fails, nt, cls, key=src, sample={'src': src[:300], 'host': host})
 
-    hyp.drive(trees(), check, st, seed=seed, max_examples=n)
+    hyp.drive(hst.tuples(trees(), hst.sampled_from(HOSTS)), check, st, seed=seed, max_examples=n)
     return st
